@@ -4,8 +4,7 @@ CONSTANTS
   Integrals <- Ints
   Fractions <- Fracs
   Rules <- DRules
-  RefusesForeignPoint = TRUE
+  RefusesForeignPoint = FALSE
 INVARIANT TypeOK
 INVARIANT DecimalMeansWhatItSays
-INVARIANT Emit
 CHECK_DEADLOCK FALSE
